@@ -156,7 +156,7 @@ Proof.
   destruct (dns_walk_total cfg (Z.to_nat an) pkt payload1 (pq_name pq) [] Hc Hp Hp1 Hn Hl) as (w & Ew & Hw).
   rewrite Ew. cbn [obind].
   destruct w as [name|name [|a addrs]]; eexists; (split; [reflexivity|]); cbn; auto.
-  destruct Hw. apply pq_ok_with_name; [repeat split; tauto|assumption|assumption].
+  unfold pq_ok. tauto.
 Qed.
 
 Lemma dns_process_slots_total : forall cfg pkt dst_port txid rcode qs,
@@ -1829,3 +1829,257 @@ Lemma c19_example_servers :
 Proof.
   vm_compute. repeat split; try reflexivity. eexists. reflexivity.
 Qed.
+
+(* ====================================================================================== *)
+(* Part G: a pending query is never rewritten (repo 4f2a12a)                              *)
+(* ====================================================================================== *)
+
+(* what identifies a query: the name it was started with, type, source port, transaction id *)
+Definition dns_qid (pq : dns_pending) : list Z * Z * Z * Z * bool :=
+  (pq_name pq, pq_type pq, pq_port pq, pq_txid pq, pq_mdns pq).
+
+(* `process` for one query: pending afterwards means untouched *)
+Lemma dns_process_query_pending_same : forall cfg pkt pq pq',
+  dns_process_query cfg pkt pq = Ok (QPending pq') -> pq' = pq.
+Proof.
+  intros cfg pkt pq pq' H. unfold dns_process_query in H.
+  destruct (wdns_payload pkt) as [payload| |]; cbn [obind] in H; try discriminate.
+  destruct (wdns_question_parse payload) as [[payload1 question]|e|]; try discriminate.
+  2:{ destruct (dns_is_fuel e); inv H; reflexivity. }
+  destruct (negb (q_type question =? pq_type pq)); [inv H; reflexivity|].
+  destruct (dns_eq_names _ _) as [[|]|e|]; try discriminate; try (inv H; reflexivity).
+  destruct (wdns_answer_record_count pkt) as [an| |]; cbn [obind] in H; try discriminate.
+  destruct (dns_walk cfg (Z.to_nat an) pkt payload1 (pq_name pq) []) as [w| |]; cbn [obind] in H; try discriminate.
+  destruct w as [name|name [|a0 addrs0]]; inv H. reflexivity.
+Qed.
+
+(* a datagram leaves a pending query exactly as it was, or finishes it *)
+Lemma dns_ingress_pending_same : forall cfg s src sp dp pkt s' acc h pq pq',
+  dns_ingress cfg s src sp dp pkt = Ok (s', acc) ->
+  nth_error (ds_queries s) h = Some (Some (QPending pq)) ->
+  nth_error (ds_queries s') h = Some (Some (QPending pq')) -> pq' = pq.
+Proof.
+  intros cfg s src sp dp pkt s' acc h pq pq' H Hh Hh'.
+  destruct (dns_ingress_slot _ _ _ _ _ _ _ _ _ _ H Hh) as [A|[_ [[_ C]|[_ (st & C & D)]]]]; try congruence.
+  rewrite D in Hh'. inv Hh'. eapply dns_process_query_pending_same; eauto.
+Qed.
+
+Lemma dns_done_slot_qid : forall cfg servers now pq pq',
+  cfg_ok cfg -> pq_ok cfg pq ->
+  dns_done_slot cfg servers now (Some (QPending pq)) = Some (QPending pq') -> dns_qid pq' = dns_qid pq.
+Proof.
+  intros cfg servers now pq pq' Hc Hq H. cbn in H.
+  destruct (dns_dispatch_query_spec cfg servers now pq Hc Hq) as (r & E & C). rewrite E in H. inv H.
+  assert (P2 : dns_qid (dns_pq2 now pq) = dns_qid pq) by (unfold dns_pq2, dns_qid; destruct (_ <=? now); reflexivity).
+  destruct C as [[-> _]|[[-> _]|(tx & dst & -> & _)]]; cbn in H1; inv H1; auto.
+Qed.
+
+(* one event: a slot that holds a pending query before and after holds the same query (name, type,
+   port, id); only the timers may have moved *)
+Lemma dns_step_qid : forall cfg s ev h pq pq',
+  cfg_ok cfg -> sock_ok cfg s ->
+  nth_error (ds_queries s) h = Some (Some (QPending pq)) ->
+  nth_error (ds_queries (fst (dns_step cfg s ev))) h = Some (Some (QPending pq')) ->
+  dns_qid pq' = dns_qid pq.
+Proof.
+  intros cfg s ev h pq pq' Hc Hs Hh H.
+  destruct ev as [name t tx pt|raw t m tx pt|i|i|now|src sp dp pkt|l|hl];
+    try (rewrite dns_step_servers_hop_queries in H; [congruence|exact I]); cbn [dns_step] in H.
+  - destruct (dns_start_query cfg s name t tx pt) as [s' r] eqn:E. cbn [fst] in H.
+    rewrite (dns_start_query_other _ _ _ _ _ _ _ _ _ _ E Hh) in H. congruence.
+  - destruct (dns_start_query_raw cfg s raw t m tx pt) as [s' r] eqn:E. cbn [fst] in H.
+    rewrite (dns_start_query_raw_other _ _ _ _ _ _ _ _ _ _ _ E Hh) in H. congruence.
+  - destruct (dns_get_query_result s i) as [s' r] eqn:E. cbn [fst] in H. unfold dns_get_query_result in E.
+    destruct (nth_error (ds_queries s) i) as [[[q|a|]|]|] eqn:Ei; inv E; try congruence;
+      cbn [dns_set_slot ds_queries] in H; rewrite nth_error_set_nth in H;
+      (destruct (Nat.eqb h i) eqn:En; [rewrite Hh in H; discriminate|congruence]).
+  - destruct (dns_cancel_query s i) as [s' r] eqn:E. cbn [fst] in H. unfold dns_cancel_query in E.
+    destruct (nth_error (ds_queries s) i) as [[q|]|] eqn:Ei; inv E; try congruence;
+      cbn [dns_set_slot ds_queries] in H; rewrite nth_error_set_nth in H;
+      (destruct (Nat.eqb h i) eqn:En; [rewrite Hh in H; discriminate|congruence]).
+  - destruct (dns_poll_spec cfg s now Hc Hs) as (txs & E). rewrite E in H. cbn [fst ds_queries] in H.
+    rewrite (nth_error_map_some _ _ _ _ _ _ Hh) in H.
+    assert (Hq : pq_ok cfg pq).
+    { unfold sock_ok in Hs. rewrite Forall_forall in Hs. apply (Hs (Some (QPending pq))). eapply nth_error_In; eauto. }
+    apply (dns_done_slot_qid cfg (ds_servers s) now pq pq' Hc Hq). injection H as H. exact H.
+  - destruct (dns_ingress cfg s src sp dp pkt) as [[s' acc]| |] eqn:E; cbn [fst] in H; try congruence.
+    rewrite (dns_ingress_pending_same _ _ _ _ _ _ _ _ _ _ _ E Hh H). reflexivity.
+Qed.
+
+(* ... and a slot that holds a pending query only afterwards was filled by start_query(_raw) *)
+Lemma dns_step_pending_new : forall cfg s ev h pq',
+  cfg_ok cfg -> sock_ok cfg s ->
+  (forall pq, nth_error (ds_queries s) h <> Some (Some (QPending pq))) ->
+  nth_error (ds_queries (fst (dns_step cfg s ev))) h = Some (Some (QPending pq')) ->
+  (exists name t tx pt, ev = EvQuery name t tx pt) \/ (exists raw t m tx pt, ev = EvQueryRaw raw t m tx pt).
+Proof.
+  intros cfg s ev h pq' Hc Hs Hn H.
+  destruct ev as [name t tx pt|raw t m tx pt|i|i|now|src sp dp pkt|l|hl]; eauto 10;
+    try (rewrite dns_step_servers_hop_queries in H; [exfalso; eapply Hn; eauto|exact I]); cbn [dns_step] in H; exfalso.
+  - destruct (dns_get_query_result s i) as [s' r] eqn:E. cbn [fst] in H. unfold dns_get_query_result in E.
+    destruct (nth_error (ds_queries s) i) as [[[q|a|]|]|] eqn:Ei; inv E; try (eapply Hn; eauto; fail);
+      cbn [dns_set_slot ds_queries] in H; rewrite nth_error_set_nth in H;
+      (destruct (Nat.eqb h i) eqn:En; [destruct (nth_error (ds_queries s) h); discriminate|eapply Hn; eauto]).
+  - destruct (dns_cancel_query s i) as [s' r] eqn:E. cbn [fst] in H. unfold dns_cancel_query in E.
+    destruct (nth_error (ds_queries s) i) as [[q|]|] eqn:Ei; inv E; try (eapply Hn; eauto; fail);
+      cbn [dns_set_slot ds_queries] in H; rewrite nth_error_set_nth in H;
+      (destruct (Nat.eqb h i) eqn:En; [destruct (nth_error (ds_queries s) h); discriminate|eapply Hn; eauto]).
+  - destruct (dns_poll_spec cfg s now Hc Hs) as (txs & E). rewrite E in H. cbn [fst ds_queries] in H.
+    rewrite nth_error_map in H. destruct (nth_error (ds_queries s) h) as [[[q|a|]|]|] eqn:Eh; cbn in H; try discriminate.
+    eapply Hn; eauto.
+  - destruct (dns_ingress cfg s src sp dp pkt) as [[s' acc]| |] eqn:E; cbn [fst] in H; [|eapply Hn; eauto|eapply Hn; eauto].
+    rewrite (dns_ingress_other _ _ _ _ _ _ _ _ h E Hn) in H. eapply Hn; eauto.
+Qed.
+
+(* start_query(_raw), slot by slot: unchanged, or the fresh pending query, or a new free slot *)
+Lemma dns_start_query_raw_slot : forall cfg s raw t m txid port s' r h,
+  dns_start_query_raw cfg s raw t m txid port = (s', r) ->
+  nth_error (ds_queries s') h = nth_error (ds_queries s) h \/
+  nth_error (ds_queries s') h = Some (Some (QPending (mkPending raw t port txid None 0 dns_RETRANSMIT_DELAY 0 m))) \/
+  nth_error (ds_queries s') h = Some None.
+Proof.
+  intros cfg s raw t m txid port s' r h H. unfold dns_start_query_raw, dns_find_free_query in H.
+  assert (App : nth_error (ds_queries s ++ [None]) h = nth_error (ds_queries s) h \/
+                nth_error (ds_queries s ++ [None]) h = Some None).
+  { destruct (Nat.lt_ge_cases h (length (ds_queries s))) as [L|L].
+    - left. apply nth_error_app1; assumption.
+    - rewrite nth_error_app2 by assumption. destruct (h - length (ds_queries s))%nat as [|k] eqn:Ek; cbn.
+      + right; reflexivity.
+      + left. destruct k; cbn; symmetry; apply nth_error_None; lia. }
+  destruct (dns_find_none (ds_queries s) 0) as [i|].
+  - destruct (wdns_len raw >? c_max_name cfg); inv H; [left; reflexivity|].
+    cbn [dns_set_slot ds_queries]. rewrite nth_error_set_nth.
+    destruct (Nat.eqb h i); [|left; reflexivity].
+    destruct (nth_error (ds_queries s) h); [right; left; reflexivity|left; reflexivity].
+  - destruct (ds_owned s); [|inv H; left; reflexivity].
+    destruct (wdns_len raw >? c_max_name cfg); inv H; cbn [dns_set_slot ds_queries].
+    + destruct App as [A|A]; [left|right; right]; exact A.
+    + rewrite nth_error_set_nth. destruct (Nat.eqb h (length (ds_queries s))).
+      * destruct (nth_error (ds_queries s ++ [None]) h) eqn:E; [right; left; reflexivity|].
+        left. symmetry. destruct App as [A|A]; congruence.
+      * destruct App as [A|A]; [left|right; right]; exact A.
+Qed.
+
+Lemma dns_start_query_slot : forall cfg s name t txid port s' r h,
+  dns_start_query cfg s name t txid port = (s', r) ->
+  nth_error (ds_queries s') h = nth_error (ds_queries s) h \/
+  (exists raw m, nth_error (ds_queries s') h =
+                 Some (Some (QPending (mkPending raw t port txid None 0 dns_RETRANSMIT_DELAY 0 m)))) \/
+  nth_error (ds_queries s') h = Some None.
+Proof.
+  intros cfg s name t txid port s' r h H. unfold dns_start_query in H.
+  destruct name as [|c name]; [inv H; left; reflexivity|].
+  destruct (dns_encode_labels _ _ _); try (inv H; left; reflexivity).
+  destruct (dns_vec_push _ _ _) as [raw|]; [|inv H; left; reflexivity].
+  destruct (dns_start_query_raw_slot _ _ _ _ _ _ _ _ _ h H) as [A|[A|A]]; eauto.
+Qed.
+
+(* a slot that holds a pending query only after the event: the event is start_query(_raw) and the
+   query is the fresh one (not yet dispatched) *)
+Lemma dns_step_pending_fresh : forall cfg s ev h pq',
+  cfg_ok cfg -> sock_ok cfg s ->
+  (forall pq, nth_error (ds_queries s) h <> Some (Some (QPending pq))) ->
+  nth_error (ds_queries (fst (dns_step cfg s ev))) h = Some (Some (QPending pq')) ->
+  ((exists name t tx pt, ev = EvQuery name t tx pt) \/ (exists raw t m tx pt, ev = EvQueryRaw raw t m tx pt)) /\
+  pq_timeout_at pq' = None /\ pq_server_idx pq' = 0.
+Proof.
+  intros cfg s ev h pq' Hc Hs Hn H.
+  pose proof (dns_step_pending_new cfg s ev h pq' Hc Hs Hn H) as C. split; [exact C|].
+  destruct C as [(name & t & tx & pt & ->)|(raw & t & m & tx & pt & ->)]; cbn [dns_step] in H.
+  - destruct (dns_start_query cfg s name t tx pt) as [s1 r] eqn:Es. cbn [fst] in H.
+    destruct (dns_start_query_slot _ _ _ _ _ _ _ _ h Es) as [A|[(raw & m & A)|A]]; rewrite A in H.
+    + exfalso. eapply Hn; eauto.
+    + inv H. split; reflexivity.
+    + discriminate.
+  - destruct (dns_start_query_raw cfg s raw t m tx pt) as [s1 r] eqn:Es. cbn [fst] in H.
+    destruct (dns_start_query_raw_slot _ _ _ _ _ _ _ _ _ h Es) as [A|[A|A]]; rewrite A in H.
+    + exfalso. eapply Hn; eauto.
+    + inv H. split; reflexivity.
+    + discriminate.
+Qed.
+
+(* every history: the query found pending in a slot is, in name, type, port and id, the query
+   start_query(_raw) put there (or the one that was there at the beginning) *)
+Lemma dns_run_qid : forall cfg evs s h pq,
+  cfg_ok cfg -> sock_ok cfg s -> Forall ev_ok evs ->
+  nth_error (ds_queries (dns_run cfg s evs)) h = Some (Some (QPending pq)) ->
+  (exists pq0, nth_error (ds_queries s) h = Some (Some (QPending pq0)) /\ dns_qid pq0 = dns_qid pq) \/
+  exists evs1 ev evs2 pq1,
+    evs = evs1 ++ ev :: evs2 /\
+    ((exists name t tx pt, ev = EvQuery name t tx pt) \/ (exists raw t m tx pt, ev = EvQueryRaw raw t m tx pt)) /\
+    nth_error (ds_queries (dns_run cfg s (evs1 ++ [ev]))) h = Some (Some (QPending pq1)) /\
+    pq_timeout_at pq1 = None /\ pq_server_idx pq1 = 0 /\ dns_qid pq1 = dns_qid pq.
+Proof.
+  induction evs as [|ev evs IH]; intros s h pq Hc Hs Hev H; cbn [dns_run] in H.
+  { left. eauto. }
+  inv Hev. destruct (dns_step_sock_ok cfg s ev Hc Hs H2) as [Hs' _].
+  destruct (IH _ _ _ Hc Hs' H3 H) as [(pq0 & A & B)|(evs1 & ev1 & evs2 & pq1 & E & C & D & F & G)].
+  - destruct (nth_error (ds_queries s) h) as [[[q|a|]|]|] eqn:Eh.
+    + left. exists q. split; [reflexivity|]. rewrite <- B. symmetry. exact (dns_step_qid cfg s ev h q pq0 Hc Hs Eh A).
+    + right. exists [], ev, evs, pq0.
+      assert (Hn : forall p, nth_error (ds_queries s) h <> Some (Some (QPending p))) by (intros; congruence).
+      destruct (dns_step_pending_fresh cfg s ev h pq0 Hc Hs Hn A) as (Cn & F1 & F2).
+      split; [reflexivity|]. split; [exact Cn|]. cbn [app dns_run]. auto.
+    + right. exists [], ev, evs, pq0.
+      assert (Hn : forall p, nth_error (ds_queries s) h <> Some (Some (QPending p))) by (intros; congruence).
+      destruct (dns_step_pending_fresh cfg s ev h pq0 Hc Hs Hn A) as (Cn & F1 & F2).
+      split; [reflexivity|]. split; [exact Cn|]. cbn [app dns_run]. auto.
+    + right. exists [], ev, evs, pq0.
+      assert (Hn : forall p, nth_error (ds_queries s) h <> Some (Some (QPending p))) by (intros; congruence).
+      destruct (dns_step_pending_fresh cfg s ev h pq0 Hc Hs Hn A) as (Cn & F1 & F2).
+      split; [reflexivity|]. split; [exact Cn|]. cbn [app dns_run]. auto.
+    + right. exists [], ev, evs, pq0.
+      assert (Hn : forall p, nth_error (ds_queries s) h <> Some (Some (QPending p))) by (intros; congruence).
+      destruct (dns_step_pending_fresh cfg s ev h pq0 Hc Hs Hn A) as (Cn & F1 & F2).
+      split; [reflexivity|]. split; [exact Cn|]. cbn [app dns_run]. auto.
+  - right. exists (ev :: evs1), ev1, evs2, pq1. subst evs. split; [reflexivity|]. split; [exact C|].
+    cbn [app dns_run]. auto.
+Qed.
+
+(* from a new socket: the completing datagram repeats the question the query was STARTED with *)
+Lemma dns_completed_original_question : forall cfg servers n owned evs h addrs,
+  cfg_ok cfg -> Forall ev_ok evs ->
+  nth_error (ds_queries (dns_run cfg (dns_new cfg servers n owned) evs)) h = Some (Some (QCompleted addrs)) ->
+  exists evs0 evq evm src sp dp pkt evs2 pq0 pq,
+    evs = (evs0 ++ evq :: evm) ++ EvRsp src sp dp pkt :: evs2 /\
+    (* the query was put into the slot by evq = start_query(_raw) ... *)
+    ((exists name t tx pt, evq = EvQuery name t tx pt) \/ (exists raw t m tx pt, evq = EvQueryRaw raw t m tx pt)) /\
+    nth_error (ds_queries (dns_run cfg (dns_new cfg servers n owned) (evs0 ++ [evq]))) h = Some (Some (QPending pq0)) /\
+    pq_timeout_at pq0 = None /\
+    (* ... and when the datagram arrives it still has that name, type, port and id *)
+    nth_error (ds_queries (dns_run cfg (dns_new cfg servers n owned) (evs0 ++ evq :: evm))) h = Some (Some (QPending pq)) /\
+    dns_qid pq = dns_qid pq0 /\
+    dns_source_ok (dns_run cfg (dns_new cfg servers n owned) (evs0 ++ evq :: evm)) src sp /\
+    dp = pq_port pq0 /\ dns_header_ok pkt (pq_txid pq0) /\
+    dns_answer_matches cfg pkt pq addrs.
+Proof.
+  intros cfg servers n owned evs h addrs Hc Hev H.
+  destruct (dns_completed_implies_match cfg servers n owned evs h addrs Hev H)
+    as (evs1 & src & sp & dp & pkt & evs2 & pq & E & M). cbv zeta in M. destruct M as (M1 & M2 & M3 & M4 & M5).
+  assert (Hev1 : Forall ev_ok evs1) by (subst evs; apply Forall_app in Hev; tauto).
+  destruct (dns_run_qid cfg evs1 _ h pq Hc (dns_new_sock_ok cfg servers n owned) Hev1 M1)
+    as [(pq0 & A & _)|(evs0 & evq & evm & pq0 & E1 & C & D & F1 & F2 & G)].
+  { exfalso. unfold dns_new in A. cbn [ds_queries] in A. apply nth_error_In in A. apply repeat_spec in A. discriminate. }
+  exists evs0, evq, evm, src, sp, dp, pkt, evs2, pq0, pq. subst evs1.
+  assert (Gp : pq_port pq = pq_port pq0 /\ pq_txid pq = pq_txid pq0) by (unfold dns_qid in G; inv G; auto).
+  destruct Gp as [Gp Gt]. rewrite <- Gp, <- Gt.
+  repeat (split; [solve [auto]|]). exact M5.
+Qed.
+
+(* a response with a CNAME a.b -> e.f that is cut off after it, then a response repeating the
+   question e.f: the first settles nothing and rewrites nothing, the second is ignored *)
+Definition c19_rsp_cname_cut : list Z :=
+  [18; 52; 129; 128; 0; 1; 0; 2; 0; 0; 0; 0; 1; 97; 1; 98; 0; 0; 1; 0; 1;
+   192; 12; 0; 5; 0; 1; 0; 0; 0; 60; 0; 5; 1; 101; 1; 102; 0; 192; 12; 0; 1].
+Definition c19_rsp_other_question : list Z :=
+  [18; 52; 129; 128; 0; 1; 0; 1; 0; 0; 0; 0; 1; 101; 1; 102; 0; 0; 1; 0; 1;
+   192; 12; 0; 1; 0; 1; 0; 0; 0; 60; 0; 4; 6; 6; 6; 6].
+
+Lemma c19_example_cname_twostep :
+  dns_run c19_cfg c19_started [EvRsp c19_server 53 50000 c19_rsp_cname_cut] = c19_started /\
+  dns_run c19_cfg c19_started [EvRsp c19_server 53 50000 c19_rsp_cname_cut;
+                               EvRsp c19_server 53 50000 c19_rsp_other_question] = c19_started /\
+  (* the cut-off response does match the question (it is the walk that is abandoned) *)
+  (exists st, dns_process_query c19_cfg c19_rsp_cname_cut
+                (mkPending [1; 97; 1; 98; 0] 1 50000 4660 (Some 10000000) 1000000 2000000 0 false) = Ok (QPending st)).
+Proof. vm_compute. repeat split; try reflexivity. eexists; reflexivity. Qed.
